@@ -109,7 +109,7 @@ def make(e, x=1, tmp=None):
                                   reducer=symbolic.Stateless.builder(str(10 * x + 8)))
     if op in ('crossval', 'holdout'):
         from forml import evaluation
-        splitter = symbolic.Stateful.builder(str(10 * x + 5), 2 * (2 if op == 'holdout' else e['k']))
+        splitter = symbolic.Stateful.builder(str(10 * x + 5), 2 * (1 if op == 'holdout' else e['k']))
         method = evaluation.HoldOut(splitter=splitter) if op == 'holdout' else evaluation.CrossVal(splitter=splitter, nsplits=e['k'])
         metric = evaluation.Function(sym_function(10 * x + 6), reducer=sym_function(10 * x + 7))
         return evaluation.TrainTestScore(metric, method)
@@ -182,4 +182,5 @@ def run_closed(e, tmp, probe=True, target=PROBE):
         assets2 = asset.State(gen2, persistent) if persistent else None
         values2 = refinterp.run(flow.compile(composition.apply, assets2))
         apply = find(values2, target)
-    return train, apply, {'persistent': len(persistent), 'commits': len(gen.commits), 'train_symbols': len(symbols)}
+    raw = [v for ins, v in values.items() if isinstance(ins, flow.Functor) and _root(v) == str(target) and _tag(v) == 'app']
+    return train, apply, {'persistent': len(persistent), 'commits': len(gen.commits), 'train_symbols': len(symbols), 'raw_train': raw}
